@@ -181,6 +181,12 @@ def instances(tier, rng):
                 out.append(dict(name="%s/borders/config%d%d" % (nm, cfg[0], cfg[1]), fn="borders", form="list", n=n, edges=es, size="none",
                                 primitive=cfg[1], config=cfg))
             out.append(dict(name="%s/borders/and" % nm, fn="borders", form="list", n=n, edges=es, size="none", primitive=False, mode="and"))
+        if 1 <= len(es) <= 6:
+            # Python constants among the border flags (a constant-True border still has to separate two blocks)
+            for off in range(4 if len(es) >= 3 else 2):
+                for prim in (False, True):
+                    out.append(dict(name="%s/borders/mixed%d/pr%d" % (nm, off, prim), fn="borders", form="list", n=n, edges=es, size="none",
+                                    primitive=prim, mode="mixed%d" % off))
     cells = 6 if tier == "quick" else 8
     for (h, w) in graphs.grid_shapes(cells):
         n = h * w
